@@ -140,6 +140,7 @@ func main() {
 	gen(c)
 	c.Case("held-outputs", fmt.Sprintf("expect ok #held %d", len(heldOuts)), heldVerdict())
 	c.Case("decoder-refusals", "expect ok #refusals", refusalVerdict())
+	c.Case("argument-surroundings", "expect ok #guards", guardVerdict())
 	c.cases.Flush()
 	c.impl.Flush()
 	cf.Close()
